@@ -144,7 +144,7 @@ impl<'t, F: Kind + BooleanFunction> Session<'t, F> {
                 Some(s)
             }
             Ok(Err(_)) => {
-                ev["res"] = json!("oom");
+                ev["res"] = json!({"oom": true});
                 self.out.emit(ev);
                 None
             }
